@@ -227,8 +227,43 @@ static void prepare(Prepared &p, const JV &prog_json, const SeedMap *seeds = nul
     p.eb->add_lifecycle_observer(&obs);
 }
 
-static void run_prepared(Prepared &p, RunCtx &ctx, std::string &error, std::string &recorded, SeedMap *capture = nullptr) {
+// collect buffers / global state after a run (executor still alive)
+static void collect_after_run(Prepared &p, GraphExecutorValue &ex, RunCtx &ctx, std::string &recorded, SeedMap *capture) {
     const JV &pj = p.prog->root;
+    if (auto *keys = pj.get("record_keys")) {
+        recorded = "{";
+        bool first = true;
+        for (auto &k : keys->a) {
+            if (!first) recorded += ',';
+            first = false;
+            jstr(recorded, k.as_str());
+            recorded += ":";
+            try {
+                auto deltas = testing::get_recorded_deltas(ex.view().graph().global_state(), k.as_str());
+                if (capture != nullptr) (*capture)[k.as_str()] = deltas;
+                recorded += "[";
+                for (std::size_t i = 0; i < deltas.size(); ++i) { if (i) recorded += ','; if (deltas[i]) json_of(recorded, deltas[i]->view()); else recorded += "null"; }
+                recorded += "]";
+            } catch (const std::exception &e) { recorded += "{\"exc\":" + jq(e.what()) + "}"; }
+        }
+        recorded += "}";
+    }
+    if (auto *keys = pj.get("gs_keys")) {
+        std::string g = "[\"gs\",{";
+        bool first = true;
+        for (auto &k : keys->a) {
+            if (!first) g += ',';
+            first = false;
+            jstr(g, k.as_str());
+            g += ":";
+            try { auto v = ex.view().graph().global_state().get(k.as_str()); json_of(g, v); } catch (const std::exception &e) { g += "{\"exc\":" + jq(e.what()) + "}"; }
+        }
+        g += "}]";
+        ctx.add(std::move(g));
+    }
+}
+
+static void run_prepared(Prepared &p, RunCtx &ctx, std::string &error, std::string &recorded, SeedMap *capture = nullptr) {
     GraphExecutorBuilder &eb = *p.eb;  // the builder is reused across runs (C07); the observer dispatches on g_ctx
     g_ctx = &ctx;
     struct Clear { ~Clear() { g_ctx = nullptr; } } clear;
@@ -237,37 +272,7 @@ static void run_prepared(Prepared &p, RunCtx &ctx, std::string &error, std::stri
         try { ex.view().run(); }
         catch (const std::exception &e) { error = err_json("run", e); }
         ctx.add("[\"phase\",\"run_returned\"]");
-        if (auto *keys = pj.get("record_keys")) {
-            recorded = "{";
-            bool first = true;
-            for (auto &k : keys->a) {
-                if (!first) recorded += ',';
-                first = false;
-                jstr(recorded, k.as_str());
-                recorded += ":";
-                try {
-                    auto deltas = testing::get_recorded_deltas(ex.view().graph().global_state(), k.as_str());
-                    if (capture != nullptr) (*capture)[k.as_str()] = deltas;
-                    recorded += "[";
-                    for (std::size_t i = 0; i < deltas.size(); ++i) { if (i) recorded += ','; if (deltas[i]) json_of(recorded, deltas[i]->view()); else recorded += "null"; }
-                    recorded += "]";
-                } catch (const std::exception &e) { recorded += "{\"exc\":" + jq(e.what()) + "}"; }
-            }
-            recorded += "}";
-        }
-        if (auto *keys = pj.get("gs_keys")) {
-            std::string g = "[\"gs\",{";
-            bool first = true;
-            for (auto &k : keys->a) {
-                if (!first) g += ',';
-                first = false;
-                jstr(g, k.as_str());
-                g += ":";
-                try { auto v = ex.view().graph().global_state().get(k.as_str()); json_of(g, v); } catch (const std::exception &e) { g += "{\"exc\":" + jq(e.what()) + "}"; }
-            }
-            g += "}]";
-            ctx.add(std::move(g));
-        }
+        collect_after_run(p, ex, ctx, recorded, capture);
     } catch (const std::exception &e) { if (error.empty()) error = err_json("make_or_release", e); }
     ctx.add("[\"phase\",\"released\"]");
 }
@@ -349,16 +354,43 @@ std::string handle_batch(const JV &req) {
     }
     auto now_us = [] { return (std::int64_t)std::chrono::duration_cast<std::chrono::microseconds>(std::chrono::steady_clock::now().time_since_epoch()).count(); };
     for (auto &[wv, runs] : waves) {
-        if (runs.size() == 1) { auto &r = *runs[0]; if (preps[r.p]->error.empty()) { r.t0 = now_us(); run_prepared(*preps[r.p], r.ctx, r.error, r.recorded); r.t1 = now_us(); } continue; }
+        const int n = (int)runs.size();
+        std::vector<std::optional<GraphExecutorValue>> exs(runs.size());
+        for (std::size_t i = 0; i < runs.size(); ++i) {   // supported usage: make_executor on the wiring thread
+            R *r = runs[i].get();
+            if (!preps[r->p]->error.empty()) continue;
+            g_ctx = &r->ctx;
+            try { exs[i].emplace(preps[r->p]->eb->make_executor()); } catch (const std::exception &e) { r->error = err_json("make", e); }
+            g_ctx = nullptr;
+        }
         std::vector<std::thread> th;
         std::atomic<int> ready{0};
-        const int n = (int)runs.size();
-        for (auto &rp : runs) {
-            R *r = rp.get();
-            if (!preps[r->p]->error.empty()) { ++ready; continue; }
-            th.emplace_back([&, r] { ++ready; while (ready.load() < n) std::this_thread::yield(); r->t0 = now_us(); run_prepared(*preps[r->p], r->ctx, r->error, r->recorded); r->t1 = now_us(); });
+        for (std::size_t i = 0; i < runs.size(); ++i) {
+            R *r = runs[i].get();
+            if (!exs[i].has_value()) { ++ready; continue; }
+            GraphExecutorValue *ex = &*exs[i];
+            auto body = [&, r, ex] {
+                ++ready;
+                while (ready.load() < n) std::this_thread::yield();
+                g_ctx = &r->ctx;
+                r->t0 = now_us();
+                try { ex->view().run(); } catch (const std::exception &e) { r->error = err_json("run", e); }
+                r->t1 = now_us();
+                r->ctx.add("[\"phase\",\"run_returned\"]");
+                g_ctx = nullptr;
+            };
+            if (n == 1) body(); else th.emplace_back(body);
         }
         for (auto &t : th) t.join();
+        for (std::size_t i = 0; i < runs.size(); ++i) {
+            R *r = runs[i].get();
+            if (!exs[i].has_value()) continue;
+            g_ctx = &r->ctx;
+            collect_after_run(*preps[r->p], *exs[i], r->ctx, r->recorded, nullptr);
+            exs[i].reset();
+            r->ctx.add("[\"phase\",\"released\"]");
+            g_ctx = nullptr;
+        }
     }
     for (std::size_t i = 0; i < order.size(); ++i) {
         R *r = order[i];
